@@ -3,6 +3,7 @@ package buffer
 import (
 	"encoding/binary"
 	"fmt"
+	"io"
 	"unsafe"
 )
 
@@ -126,6 +127,13 @@ func ReadUint16Slice(r Reader, c []uint16) (n int64, err error) {
 		size = len(c) << 1
 	}
 
+	// Only whole words are peeked: a window that is not a multiple of the word
+	// size would otherwise lose its trailing bytes, and an empty window (source
+	// exhausted) would recurse forever.
+	if size &^= 1; size == 0 {
+		return 0, fmt.Errorf("cannot ReadUint16Slice: %w", io.ErrUnexpectedEOF)
+	}
+
 	// Then returns the written bytes
 	if slice, err = r.Peek(size); err != nil {
 		return int64(len(slice)), err
@@ -201,6 +209,13 @@ func ReadUint32Slice(r Reader, c []uint32) (n int64, err error) {
 		size = len(c) << 2
 	}
 
+	// Only whole words are peeked: a window that is not a multiple of the word
+	// size would otherwise lose its trailing bytes, and an empty window (source
+	// exhausted) would recurse forever.
+	if size &^= 3; size == 0 {
+		return 0, fmt.Errorf("cannot ReadUint32Slice: %w", io.ErrUnexpectedEOF)
+	}
+
 	// Then returns the written bytes
 	if slice, err = r.Peek(size); err != nil {
 		return int64(len(slice)), err
@@ -274,6 +289,13 @@ func ReadUint64Slice(r Reader, c []uint64) (n int64, err error) {
 	size := r.Size()
 	if len(c)<<3 < size {
 		size = len(c) << 3
+	}
+
+	// Only whole words are peeked: a window that is not a multiple of the word
+	// size would otherwise lose its trailing bytes, and an empty window (source
+	// exhausted) would recurse forever.
+	if size &^= 7; size == 0 {
+		return 0, fmt.Errorf("cannot ReadUint64Slice: %w", io.ErrUnexpectedEOF)
 	}
 
 	// Then returns the written bytes
